@@ -10,6 +10,7 @@ at construction) is applied online, and after EVERY operation every open context
 from __future__ import annotations
 
 import contextvars
+import itertools
 from typing import Any, Generic, Optional, TypeVar, Union
 
 import anyio
@@ -590,6 +591,10 @@ def _reentrant_cases(draw: Any) -> dict:
     from harness.engines import reentrant
 
     d = D(draw)
+    if d.pct(35):
+        return {"kind": "reentrant", "family": "chain", "backend": draw(BACKEND), "sched_seed": draw(SEED), "a_async": d.bool(),
+                "b_async": d.bool(), "api": d.pick(reentrant.APIS), "nested": d.bool(), "racers": d.int(1, 4), "b_first": d.pct(30),
+                "cps": d.int(0, 3)}
     ft = d.pick([[0], [1], [2], [0, 1], [0, 2], [1, 2], [2, 0], [0, 1, 2], [2, 1, 0]])
     inner = [u for u in ft if d.pct(50)]
     fasync = d.bool()
@@ -609,7 +614,7 @@ def exhaustive_cases(prop: str, tier: str, w: int, n: int):
         return
     from harness.engines import reentrant
 
-    for i, case in enumerate(reentrant.all_cases()):
+    for i, case in enumerate(itertools.chain(reentrant.all_cases(), reentrant.chain_cases())):
         if i % n == w:
             yield case
 
@@ -782,7 +787,10 @@ class Interp:
             rc = self.real[c.idx]
             for tid in range(NTYPES):
                 try:
-                    actual = {n: self.ser(v) for n, v in rc.get_resources(TYPES[tid]).items()}
+                    raw = rc.get_resources(TYPES[tid])
+                    actual = {n: self.ser(v) for n, v in raw.items()}
+                    if isinstance(raw, dict):
+                        raw.clear()  # (what the caller does with the returned mapping is the caller's business)
                 except Exception as exc:
                     self.disc(["crash"], "get_resources-raises", f"get_resources raised {short_exc(exc)} after {desc}")
                     self.diverged = True
